@@ -378,7 +378,26 @@ def nontrivial_histories(case, obs):
 def shrink_histories(case):
     hist = case["hist"]
     n = len(hist)
-    for size in (n // 2, n // 4, 8, 1):
+    extra = {"big": True} if case.get("big") else {}
+    first_add = next((i for i, o in enumerate(hist) if o[0] == "add"), None)
+    if n > 200:
+        # long histories: a handful of structured candidates only (each costs a worker run)
+        if first_add is not None:
+            yield dict(extra, hist=hist[:first_add + 1])
+            yield dict(extra, hist=[o for i, o in enumerate(hist) if i >= first_add or o[0] == "log"])
+            nlog = sum(1 for o in hist[:first_add] if o[0] == "log")
+            for keep in (CAP + 1, CAP, 2):
+                if nlog > keep:
+                    drop, out = nlog - keep, []
+                    for i, o in enumerate(hist):
+                        if i < first_add and o[0] == "log" and drop:
+                            drop -= 1
+                            continue
+                        out.append(o)
+                    yield dict(extra, hist=out)
+        yield dict(extra, hist=hist[:n // 2])
+        return
+    for size in (n // 2, n // 4, 4, 1):
         if size < 1:
             continue
         for i in range(0, n, size):
